@@ -74,3 +74,58 @@ pub fn make_client_config(
 
     Ok(crypto)
 }
+
+/// Verification hooks: the certificate checks of the libp2p TLS verifier on a DER certificate,
+/// as rustls would invoke them for a server certificate (with the dialed peer, if any) and for
+/// a client certificate; the constants of the extension signature. Adds code only.
+#[cfg(feature = "verif")]
+pub mod verif {
+    use super::*;
+
+    pub use super::certificate::verif_generate_with;
+
+    /// `verify_server_cert` with `intermediates` extra copies of the certificate as the
+    /// intermediate chain; on success the peer ID that the QUIC transport extracts.
+    pub fn verif_check_server_cert(
+        der: &[u8],
+        intermediates: usize,
+        expected: Option<PeerId>,
+    ) -> Result<PeerId, String> {
+        use rustls::client::ServerCertVerifier;
+
+        let verifier = verifier::Libp2pCertificateVerifier::with_remote_peer_id(expected);
+        let certificate = rustls::Certificate(der.to_vec());
+        let chain: Vec<_> = (0..intermediates).map(|_| certificate.clone()).collect();
+        let name = rustls::ServerName::try_from("l").map_err(|error| format!("{error:?}"))?;
+        verifier
+            .verify_server_cert(
+                &certificate,
+                &chain,
+                &name,
+                &mut std::iter::empty(),
+                &[],
+                std::time::SystemTime::now(),
+            )
+            .map_err(|error| format!("{error:?}"))?;
+
+        certificate::parse(&certificate)
+            .map(|certificate| certificate.peer_id())
+            .map_err(|error| format!("{error:?}"))
+    }
+
+    /// `verify_client_cert` (the listener's side: no expectation).
+    pub fn verif_check_client_cert(der: &[u8], intermediates: usize) -> Result<PeerId, String> {
+        use rustls::server::ClientCertVerifier;
+
+        let verifier = verifier::Libp2pCertificateVerifier::new();
+        let certificate = rustls::Certificate(der.to_vec());
+        let chain: Vec<_> = (0..intermediates).map(|_| certificate.clone()).collect();
+        verifier
+            .verify_client_cert(&certificate, &chain, std::time::SystemTime::now())
+            .map_err(|error| format!("{error:?}"))?;
+
+        certificate::parse(&certificate)
+            .map(|certificate| certificate.peer_id())
+            .map_err(|error| format!("{error:?}"))
+    }
+}
